@@ -874,44 +874,76 @@ var fsOps = []fsOp{
 	{"s2", func(w *world, f *localfs.Filesystem, p string, o *fsObs) error { return f.Symlink("b", p) }},
 }
 
+// relBase: the bases are ALSO spelled relative to the working directory (".", "./", "a/..", "./." - all clean to "."):
+// the filesystem is rooted at the same host directory, so the same judgement applies (PathsCheck!FSCheck reads the
+// base from the index b). Only operations that change nothing are run this way, so the working directory stays valid.
+var relBase bool
+var relSpellings = []string{".", "./", "a/..", "./."}
+var readOnlyOps = map[string]bool{"rf": true, "op": true, "of": true, "st": true, "rd": true}
+
 func legLocalFS(w *world, path string) []any {
 	out := []any{}
 	for bi, b := range baseSegs {
-		fsys, err := localfs.New(context.Background(), localfs.WithBase(filepath.Join(append([]string{w.h}, b...)...)))
+		host := filepath.Join(append([]string{w.h}, b...)...)
+		var systems []*localfs.Filesystem
+		fsys, err := localfs.New(context.Background(), localfs.WithBase(host))
 		if err != nil {
 			die("localfs.New: %v", err)
 		}
-		for _, op := range fsOps {
-			o := &fsObs{touched: map[string][]string{}}
-			var operr error
-			pan := ""
-			func() {
-				defer func() {
-					if x := recover(); x != nil {
-						pan = fmt.Sprint(x)
-					}
+		systems = append(systems, fsys)
+		if relBase {
+			rfs, err := localfs.New(context.Background(), localfs.WithBase(relSpellings[(bi+len(path))%len(relSpellings)]))
+			if err != nil {
+				die("localfs.New (relative base): %v", err)
+			}
+			systems = append(systems, rfs)
+		}
+		for si, fsys := range systems {
+			if si == 1 {
+				if err := os.Chdir(host); err != nil {
+					die("chdir %s: %v", host, err)
+				}
+			}
+			for _, op := range fsOps {
+				if si == 1 && !readOnlyOps[op.code] {
+					continue
+				}
+				o := &fsObs{touched: map[string][]string{}}
+				var operr error
+				pan := ""
+				func() {
+					defer func() {
+						if x := recover(); x != nil {
+							pan = fmt.Sprint(x)
+						}
+					}()
+					operr = op.call(w, fsys, path, o)
 				}()
-				operr = op.call(w, fsys, path, o)
-			}()
-			w.collect(o)
-			keys := make([]string, 0, len(o.touched))
-			for k := range o.touched {
-				keys = append(keys, k)
+				w.collect(o)
+				keys := make([]string, 0, len(o.touched))
+				for k := range o.touched {
+					keys = append(keys, k)
+				}
+				sort.Strings(keys)
+				t := [][]string{}
+				for _, k := range keys {
+					t = append(t, o.touched[k])
+				}
+				links := o.links
+				if links == nil {
+					links = [][]string{}
+				}
+				r := N{"b": bi + 1, "m": op.code, "e": operr != nil || pan != "", "t": t, "l": links}
+				if pan != "" {
+					r["t"] = [][]string{{outTag, "panic"}}
+				}
+				out = append(out, r)
 			}
-			sort.Strings(keys)
-			t := [][]string{}
-			for _, k := range keys {
-				t = append(t, o.touched[k])
+			if si == 1 {
+				if err := os.Chdir("/"); err != nil {
+					die("chdir /: %v", err)
+				}
 			}
-			links := o.links
-			if links == nil {
-				links = [][]string{}
-			}
-			r := N{"b": bi + 1, "m": op.code, "e": operr != nil || pan != "", "t": t, "l": links}
-			if pan != "" {
-				r["t"] = [][]string{{outTag, "panic"}}
-			}
-			out = append(out, r)
 		}
 	}
 	return out
@@ -956,7 +988,12 @@ func cmdReplay(args []string) {
 	fsmax := fl.Int("fsmax", 99, "fs leg for paths with at most this many segments")
 	j := fl.Int("j", runtime.NumCPU(), "parallelism")
 	shards := fl.Int("shards", 0, "write OUT.shardK.ndjson (round robin) instead of one file")
+	rel := fl.Bool("relbase", false, "also spell every base relative to the working directory (one worker: the process changes directory)")
 	fl.Parse(args)
+	if *rel {
+		*j = 1
+		relBase = true
+	}
 	inf, err := os.Open(*in)
 	if err != nil {
 		die("read cases: %v", err)
